@@ -128,7 +128,8 @@ Refs == {"r1", "r2"}
 Vers == {0, 1}   \* 0 is a legal pm:ReferencedVersion: a request for version 0 is a version constraint, not "no version"
 Langs == {"en", "de"}
 Widths == {"xs", "s", "l"}
-LineCounts == {1, 2}
+\* (3: a text whose middle line is empty - every line counts, also one without content)
+LineCounts == {1, 2, 3}
 Texts == [ref : Refs, ver : Vers, lang : Langs, width : Widths, lines : LineCounts]
 
 WRank(w) == CASE w = "xs" -> 0 [] w = "s" -> 1 [] w = "m" -> 2 [] w = "l" -> 3 [] w = "xl" -> 4 [] w = "xxl" -> 5
@@ -163,6 +164,7 @@ WLPat(n) == CASE n = "x1" -> {<<"xs", 1>>}
               [] n = "x1l2" -> {<<"xs", 1>>, <<"l", 2>>}
               [] n = "x2l1" -> {<<"xs", 2>>, <<"l", 1>>}
               [] n = "s12" -> {<<"s", 1>>, <<"s", 2>>}
+              [] n = "s13" -> {<<"s", 1>>, <<"s", 3>>}
               [] n = "all" -> Widths \X LineCounts
 T(r, v, g, w, n) == [ref |-> r, ver |-> v, lang |-> g, width |-> w, lines |-> n]
 Special(n) == CASE n = "empty" -> {}
@@ -179,12 +181,12 @@ StoreOf(p) == IF p.rv = "x" THEN Special(p.lg)
 
 AllRV == {"a1", "a12", "ab1", "rag", "full"}
 AllLG == {"en", "both"}
-AllWL == {"x1", "s2", "x1l2", "x2l1", "s12", "all"}
+AllWL == {"x1", "s2", "x1l2", "x2l1", "s12", "s13", "all"}
 AllSpecials == {"empty", "raglang", "ragref", "ragver"}
 AllStoreIds == [rv : AllRV, lg : {"both"}, wl : AllWL] \cup [rv : {"a1", "full"}, lg : {"en"}, wl : AllWL]
                  \cup [rv : {"x"}, lg : AllSpecials, wl : {"-"}]
 QuickStoreIds == [rv : {"rag", "full"}, lg : {"both"}, wl : {"x2l1", "all"}]
-                   \cup [rv : {"a1"}, lg : {"en"}, wl : {"s2"}]
+                   \cup [rv : {"a1"}, lg : {"en"}, wl : {"s2", "s13"}]
                    \cup [rv : {"x"}, lg : {"empty", "ragref", "ragver"}, wl : {"-"}]
 
 AllFRefs == {<<>>, <<"r1">>, <<"r1", "r2">>, <<"rx">>, <<"rx", "r1">>}
